@@ -240,6 +240,9 @@ def tqdm_mode(mode: int, log: dict):
 # --------------------------------------------------------------------------- world
 
 
+LEVEL_GRAPH = {0: "g", 1: "then_g", 2: "nest_g", 3: "else_g", 4: "loop_g"}
+
+
 def join(d: str, n: str) -> str:
     return n if d == "" else d + "/" + n
 
@@ -267,8 +270,10 @@ class World:
             self.initial_files[rel] = b
         self.values = []  # all initializer Values, model.graphs() order
         self.objs = []  # original tensor objects (None for U)
-        # level ("sub"): 0 main graph, 1 then-branch of an If, 2 If nested inside that then-branch, 3 else-branch
-        levels: dict[int, list] = {0: [], 1: [], 2: [], 3: []}
+        # level ("sub"): 0 main graph, 1 then-branch of an If, 2 If nested inside that then-branch, 3 else-branch,
+        # 4 body of a Loop (visited after the If by model.graphs()).  Names may repeat ACROSS levels, not within one.
+        levels: dict[int, list] = {0: [], 1: [], 2: [], 3: [], 4: []}
+        self.tensors = []  # tensor object per initializer of the spec (aliases included, None for U)
         flags: dict[int, dict] = {}
         by_name: dict[str, object] = {}
         self.owned = []  # tensor objects owned (not aliases), in heap order of the model
@@ -282,6 +287,7 @@ class World:
                 levels[int(it.get("sub", 0))].append(v)
                 flags[id(v)] = it
                 self.objs.append(None)
+                self.tensors.append(t)
                 continue
             t = self._tensor(ir, it)
             by_name[it["name"]] = t
@@ -297,7 +303,11 @@ class World:
             levels[int(it.get("sub", 0))].append(v)
             flags[id(v)] = it
             self.objs.append(t)
+            self.tensors.append(t)
         self.by_name = by_name
+        for lv, vals in levels.items():
+            if len({v.name for v in vals}) != len(vals):
+                raise ValueError(f"duplicate initializer names inside graph level {lv}")
         order = sorted(spec.get("inits", []), key=lambda it: int(it.get("sub", 0)))
         if order != list(spec.get("inits", [])):
             raise ValueError("spec.inits must be ordered by graph level (main, then, nested, else)")
@@ -344,8 +354,16 @@ class World:
             )
             ifn.outputs[0].name = "z"
             extra_nodes.append(ifn)
+        if levels[4]:
+            trip = fvalue("trip", (), ir.DataType.INT64)
+            lcond = fvalue("lcond", (), ir.DataType.BOOL)
+            extra_inputs += [trip, lcond]
+            body = mkgraph("loop_g", levels[4], [fvalue("it", (), ir.DataType.INT64), fvalue("cin", (), ir.DataType.BOOL)], [], x)
+            loop = ir.node("Loop", [trip, lcond], attributes={"body": body}, name="loopn")
+            loop.outputs[0].name = "zl"
+            extra_nodes.append(loop)
         g = mkgraph("g", levels[0], extra_inputs, extra_nodes, x, opset_imports={"": 18})
-        self.values = levels[0] + levels[1] + levels[2] + levels[3]
+        self.values = levels[0] + levels[1] + levels[2] + levels[3] + levels[4]
         self.model = ir.Model(g, ir_version=10)
         got = [v for gg in self.model.graphs() for v in gg.initializers.values()]
         if [id(v) for v in got] != [id(v) for v in self.values]:
@@ -496,6 +514,7 @@ class World:
         """ir.load of what is on disk: sorted `name:sub:len:cks`, or 'none'.  Also the loaded graph structure."""
         from onnxscript import ir
 
+        self.load_pg = []  # per graph: "<graph name>/<initializer name>:<len>:<cks>"
         if not is_proto:
             return "none", None
         try:
@@ -509,6 +528,7 @@ class World:
                     if hasattr(t, "release"):
                         t.release()
                     out.append(f"{name}:{0 if g is main else 1}:{cks(b)}")
+                    self.load_pg.append(f"{g.name}/{name}:{cks(b)}")
             struct = []
             for g in m2.graphs():
                 struct.append("G " + str(g.name) + " in=" + ",".join(str(v.name) for v in g.inputs) + " out=" + ",".join(str(v.name) for v in g.outputs))
@@ -572,12 +592,12 @@ def run_real(spec: dict, k: int | None) -> dict:
             "heap": w.obs_heap(),
             "graph": w.obs_graph(),
             "files": w.obs_files(),
-            "bytes": {},
+            "bytes": [],
         }
-        for it in spec.get("inits", []):
-            t = w.by_name.get(it["name"])
-            if t is not None:
-                before["bytes"][it["name"]] = (int(bool(it.get("sub"))), payload(w.obs_obj(t)))
+        before["bytes"] = [
+            (it["name"], LEVEL_GRAPH[int(it.get("sub", 0))], int(bool(it.get("sub"))), payload(w.obs_obj(t)))
+            for it, t in zip(spec.get("inits", []), w.tensors) if t is not None
+        ]
         struct_expected = w.struct_expected()
         fs = FaultFS(w.root, k, w.model_rel)
         log = {"total": None, "updates": 0, "desc": []}
@@ -625,6 +645,7 @@ def run_real(spec: dict, k: int | None) -> dict:
             "before": before,
             "after": after,
             "load": load_str,
+            "load_pg": sorted(w.load_pg),
             "load_struct": load_struct,
             "struct_expected": struct_expected,
             "updates": log["updates"],
